@@ -1,6 +1,8 @@
 package base
 
 import (
+	"strconv"
+
 	"github.com/relex/gotils/promexporter/promext"
 	"github.com/relex/gotils/promexporter/promreg"
 	"github.com/relex/slog-agent/util"
@@ -112,6 +114,9 @@ func (pcounter *LogProcessCounterSet) SelectMetricKeySet(record *LogRecord) *Log
 
 	tempMergedKey := pcounter.mergeKeyBuffer
 	for _, tkey := range tempKeys {
+		// prefix each key by its length: plain concatenation would merge e.g. ("ab","c") and ("a","bc")
+		tempMergedKey = strconv.AppendInt(tempMergedKey, int64(len(tkey)), 10)
+		tempMergedKey = append(tempMergedKey, ':')
 		tempMergedKey = append(tempMergedKey, tkey...)
 	}
 	pcounter.mergeKeyBuffer = tempMergedKey[:0]
